@@ -7,7 +7,7 @@
    the callbacks it makes are the model's notifications, in order (a clock-time callback as seen
    through the six getters).  Every theorem about `process` — in particular C03's
    non-interference — is thereby a statement about this C function. *)
-Require Import Lemmas_Mid_Process.
+Require Import Lemmas_Mid_Process Lemmas_CbAf ObsRun.
 Local Open Scope Z_scope.
 
 Theorem C03_code_process : forall g s evs, wf_group g -> Pre s ->
@@ -26,3 +26,39 @@ Theorem C03_code_process : forall g s evs, wf_group g -> Pre s ->
     /\ map ev_view new = map ev_call (snd (process conv_u lut_g g s)).
 Proof. exact mid_parser_process. Qed.
 Print Assumptions C03_code_process.
+
+(* the hypothesis Pre is met by every reachable state (buffer lengths: the invariant Inv; AF
+   bitmaps: reach_af_wf) whose accepted PI is a 16-bit value or "unknown" ... *)
+Theorem C03_code_process_reachable : forall h s g evs, reach conv_u lut_g h s -> wf_group g ->
+  -1 <= d_pi (used s) < 65536 ->
+  exists new,
+    m_parser_process
+      (d_af (temp s)) (getf SCountry (temp s)) (getf SEcc (temp s)) (getf SMs (temp s)) (getf SPi (temp s))
+      (getf SPty (temp s)) (getf STa (temp s)) (getf STp (temp s))
+      (d_af (used s)) (getf SCountry (used s)) (getf SEcc (used s)) (getf SMs (used s)) (getf SPi (used s))
+      (getf SPty (used s)) (getf STa (used s)) (getf STp (used s))
+      (b2z (ext s)) (cb s FAF) (cb s FCOUNTRY) (cb s FCT) (cb s FECC) (cb s FMS) (cb s FPI) (cb s FPS) (cb s FPTY)
+      (cb s FPTYN) (cb s FRT) (cb s FTA) (cb s FTP) (corr_tab s) evs (last_rt s) (prog_tab s)
+      (contents (ps s)) (levels (ps s)) (contents (ptyn s)) (levels (ptyn s))
+      (contents (rt0 s)) (levels (rt0 s)) 64 (contents (rt1 s)) (levels (rt1 s)) 64 (ud s)
+      (ga g) (gb g) (gc g) (gd g) (ea g) (eb g) (ec g) (ed g)
+    = out_view (fst (process conv_u lut_g g s)) (evs ++ new)
+    /\ map ev_view new = map ev_call (snd (process conv_u lut_g g s)).
+Proof.
+  intros h s g evs Hr W Hpi. apply mid_parser_process; [exact W|].
+  pose proof (reach_inv conv_u lut_g h s Hr) as I.
+  destruct (reach_af_wf conv_u lut_g h s Hr) as [[pu [Lu [Fu _]]] [pt [Lt [Ft _]]]].
+  destruct (inv_ps _ _ I) as [L1 _]. destruct (inv_rt0 _ _ I) as [L2 _].
+  destruct (inv_rt1 _ _ I) as [L3 _]. destruct (inv_ptyn _ _ I) as [L4 _].
+  unfold Pre, bytes. repeat split; assumption || lia.
+Qed.
+Print Assumptions C03_code_process_reachable.
+
+(* ... and it is not vacuous: the initial state and the state after the demonstration scenario *)
+Example C03_pre_init : Pre init_state.
+Proof. unfold Pre, bytes. cbn. repeat split; try lia; repeat constructor; lia. Qed.
+Example C03_pre_scenario : Pre (run_u scenario).
+Proof.
+  unfold Pre, bytes. repeat split; try (vm_compute; reflexivity); try (vm_compute; intros; discriminate).
+  all: try (apply Forall_forall; intros x Hx; vm_compute in Hx; repeat (destruct Hx as [<-|Hx]; [vm_compute; split; congruence|]); contradiction).
+Qed.
